@@ -1,6 +1,8 @@
 package an
 
 import (
+	"fmt"
+	"go/types"
 	"strings"
 
 	"golang.org/x/tools/go/ssa"
@@ -25,6 +27,9 @@ func runC10(p *Prog, r *Report) {
 	r.Floor("C10.1/cond", "e4c.cond_waits", 4)
 	c10Anchored(p, r)
 	pipeIDPairing(p, r, "C10.7/id-pairing")
+	r.Describe("C10.9/closed-means-ErrClosed", "every error-returning method of a protocol socket/context returns ErrClosed on the branch of its own closed flag and on the select arm of its own close channel")
+	closedMeansErrClosed(p, r, "C10.9/closed-means-ErrClosed")
+	r.Floor("C10.9/closed-means-ErrClosed", "c10.closed_paths", 70)
 	r.Describe("C10.8/listen-vs-close", "Listen and Close of one listener are serialised: no address stays bound after Close")
 	coreListenAtomic(p, r, "C10.8/listen-vs-close")
 }
@@ -220,4 +225,137 @@ func coreListenAtomic(p *Prog, r *Report, R string) {
 		tc := cl.Ev("call", "TranListener.Close")
 		r.Check(len(tc) == 1 && tc.AllHeld("internal/core.listener.Mutex"), R, "listener.Close/under-lock", tc.Pos(p), "the transport listener is closed under the same lock", "core listener.Close closes the transport listener outside the lock that Listen holds")
 	}
+}
+
+// closedMeansErrClosed: in every error-returning method of a protocol socket or context,
+// (a) the branch taken when the object's own closed flag is set, and (b) the select arm on
+// the object's own close channel, return ErrClosed on every path — not nil, not a timeout.
+// (Arms on a *pipe's* close channel mean "peer gone" and are not covered.)
+func closedMeansErrClosed(p *Prog, r *Report, R string) {
+	n := 0
+	ownClose := func(v ssa.Value) bool {
+		d := Desc(v)
+		if !strings.Contains(strings.ToLower(d), "closeq") {
+			return false
+		}
+		if t := chanOwner(v); t != nil && t.Obj().Name() == "pipe" {
+			return false
+		}
+		return !strings.Contains(d, "Pipe.") && !strings.Contains(d, ".p.") && !strings.Contains(d, "pipe")
+	}
+	for _, fn := range p.Funcs {
+		rel, _ := p.FuncRel(fn)
+		if !strings.HasPrefix(rel, "protocol/") || fn.Signature.Recv() == nil || !returnsError(fn) {
+			continue
+		}
+		rt := recvTypeName(fn)
+		if rt != "socket" && rt != "context" {
+			continue
+		}
+		check := func(start *ssa.BasicBlock, from *ssa.BasicBlock, what string, at ssa.Instruction) {
+			n++
+			bad := ""
+			seen := map[[2]*ssa.BasicBlock]bool{}
+			var walk func(b, prev *ssa.BasicBlock, depth int, env map[*ssa.Phi]ssa.Value)
+			walk = func(b, prev *ssa.BasicBlock, depth int, env map[*ssa.Phi]ssa.Value) {
+				if bad != "" || depth > 40 {
+					return
+				}
+				// phis of b take the value of the edge this path came in by
+				for _, in := range b.Instrs {
+					ph, ok := in.(*ssa.Phi)
+					if !ok {
+						break
+					}
+					for k, pb := range b.Preds {
+						if pb == prev {
+							v := ph.Edges[k]
+							if p2, ok := v.(*ssa.Phi); ok && env[p2] != nil {
+								v = env[p2]
+							}
+							ne := map[*ssa.Phi]ssa.Value{}
+							for a, c := range env {
+								ne[a] = c
+							}
+							ne[ph] = v
+							env = ne
+						}
+					}
+				}
+				for _, in := range b.Instrs {
+					if ret, ok := in.(*ssa.Return); ok {
+						ev := resolveSpill(ret.Results[len(ret.Results)-1], ret)
+						if ph, ok := ev.(*ssa.Phi); ok && env[ph] != nil {
+							ev = env[ph]
+						}
+						if d := Desc(ev); d != "ErrClosed" {
+							// a phi defined further up: accept if every edge is ErrClosed
+							bad = d + " at " + p.InstrPos(ret)
+							if ph, ok := ev.(*ssa.Phi); ok {
+								all := true
+								for _, e := range ph.Edges {
+									if Desc(e) != "ErrClosed" {
+										all = false
+									}
+								}
+								if all {
+									bad = ""
+								}
+							}
+						}
+						return
+					}
+				}
+				for _, s := range b.Succs {
+					if seen[[2]*ssa.BasicBlock{s, b}] {
+						continue
+					}
+					seen[[2]*ssa.BasicBlock{s, b}] = true
+					walk(s, b, depth+1, env)
+				}
+			}
+			walk(start, from, 0, map[*ssa.Phi]ssa.Value{})
+			key := p.FuncName(fn) + "/" + what
+			r.Check(bad == "", R, key, p.InstrPos(at), "returns ErrClosed", "a call on a closed "+rt+" does not fail with ErrClosed on this path: it returns "+bad)
+		}
+		for _, b := range fn.Blocks {
+			iff, ok := b.Instrs[len(b.Instrs)-1].(*ssa.If)
+			if !ok {
+				continue
+			}
+			// (a) closed flag of the receiver (or of its socket)
+			if d := Desc(iff.Cond); d == "recv.closed" || d == "recv.s.closed" {
+				if len(b.Succs[0].Preds) == 1 {
+					check(b.Succs[0], b, "closed-flag("+d+")@"+strings.Join(p.GuardStrings(iff), "&&"), iff)
+				}
+			}
+			// (b) select arm on an own close channel
+			if bo, ok := iff.Cond.(*ssa.BinOp); ok {
+				if ex, ok := bo.X.(*ssa.Extract); ok {
+					if sel, ok := ex.Tuple.(*ssa.Select); ok {
+						if k, ok := ConstInt(bo.Y); ok && int(k) < len(sel.States) && sel.States[k].Dir == types.RecvOnly && ownClose(sel.States[k].Chan) {
+							check(b.Succs[0], b, fmt.Sprintf("close-arm(%s)#%d", Desc(sel.States[k].Chan), instrIndexInFn(sel)), iff)
+						}
+					}
+				}
+			}
+		}
+	}
+	r.Count("c10.closed_paths", n)
+}
+
+// instrIndexInFn: ordinal of a select among the selects of its function (stable key).
+func instrIndexInFn(in ssa.Instruction) int {
+	k := 0
+	for _, b := range in.Parent().Blocks {
+		for _, x := range b.Instrs {
+			if x == in {
+				return k
+			}
+			if _, ok := x.(*ssa.Select); ok {
+				k++
+			}
+		}
+	}
+	return k
 }
